@@ -248,6 +248,7 @@ func (x *prioExec) afterFault() {
 		x.startRelease(x.pickRelease(POp{Mode: "all"}))
 		ret := make(chan struct{})
 		x.stopIssued = true
+		x.stopIssuedA.Store(true)
 		x.wg.Add(1)
 		go func() {
 			defer x.wg.Done()
@@ -356,6 +357,7 @@ func (x *prioExec) injectStop(op POp) {
 		synctest.Wait()
 	}
 	x.stopIssued = true
+	x.stopIssuedA.Store(true)
 	variant := op.N % 4 // 1: two concurrent Stop() calls; 2: Stop + cancel together; after completion every further call must return at once
 	if op.K == "cancel" {
 		x.sys.cancel()
